@@ -20,6 +20,11 @@ CHECKS = {
     technique='TLA+/TLC: exhaustive check of the algebra laws over all operand tuples (LogicLaws.tla); batched trace validation of 4-/8-valued LogicSim observations against Netlist.Eval built from the documented operators (LogicSimT.tla)',
     text='TLC proves on the specification, for all 33 primitives and all 8^4 / 4^4 operand tuples, that the bit-plane formulas equal the code semantics, X-soundness against every completion, the 8->2 projection and closure of the 4-valued sub-algebra. Observations of the real LogicSim (m=4 and m=8, all option settings) on random circuits with stimuli arranged in completion families are validated: captured value = gate-by-gate composition of the documented operators; XSound and Proj8To2 are evaluated directly on the observed results.',
     note='Proj8To2 on lanes with known stimuli only. Interface elements pass the assigned code on unchanged. Trusted: TLC, JSON reader, harness projection.'),
+ 'C12': dict(
+    cat='model_checking', ref='DESIGN.md §4 C12, §3 (Logic, LogicLaws, OpsT)',
+    technique='TLA+/TLC: exhaustive check of the algebra laws (LogicLaws.tla); element-wise trace validation of the real operators on the complete operand domain (OpsT.tla)',
+    text='Complete enumeration: every operand tuple (8^k, 4^k, k=1..4) of bp8v_*/bp4v_* at every lane position, all 64 pairs / 8 values of mv_* in 1-D, 2-D and broadcast layouts, seeded random shapes up to rank 3, with no out=, zero-filled, stale and (for NOT) aliasing out= arrays; TLC compares every element of the returned array and of the caller\'s array with the documented algebra and the result shape with the broadcast shape. TLC also proves on the specification that the bit-plane formulas equal the code semantics, the Boolean restriction, De Morgan and k-ary = folded binary.',
+    note='Public API only (mv_* unary/binary, bp*v_* 1..4 operands). Aliasing out= with an operand is exercised for NOT only (the form the simulator uses); it is not promised for the other operators. Trusted: TLC, JSON reader, NumPy broadcasting used to flatten operands.'),
  'C07': dict(
     cat='model_checking', ref='DESIGN.md §4 C07, §3 (Schedule, ThreadOrder, SchedReplay)',
     technique='TLA+/TLC: model run of Schedule.tla on the published schedule (all Begin/End interleavings for narrow levels, level-wise static form for all); TLC-simulated thread orders (ThreadOrder.tla) replayed into the real simulators, judged by SchedReplay.tla',
